@@ -419,6 +419,9 @@ func runFn(c ccase) (retry bool) {
 			panic(err)
 		}
 		tape.Steer = nil
+		if h2.EpochHour() != strconv.FormatInt(hour0, 10) {
+			return true // the epoch hour changed under the case
+		}
 		sh2 := ref.Fresh("c")
 		rep := ref.CliNew(sh2, nid2, pk2, ltape, hour0)
 		if rep.Class != "ok" {
@@ -505,7 +508,8 @@ func runDial(c ccase) (retry bool) {
 	}
 	if wrongID {
 		// the genuine server must not even answer: it cannot verify MAC_C
-		if srep.Class != "need" {
+		// (`need`; `invalid` when the client handshake is 8192 bytes long — never `ok`)
+		if srep.Class != "need" && srep.Class != "invalid" {
 			violate("ref-server-answers-wrong-identity-client", "correspondence", "srv.feed: "+srep.Raw, c)
 		}
 		// the man in the middle answers instead, with the genuine identity's public values
@@ -925,6 +929,15 @@ func runFresh(c ccase) (retry bool) {
 		rep := ref.CliNew(sh, id.NodeID, id.Pub, full, hour0)
 		ref.Drop(sh)
 		r.Validated(1)
+		if o4h.Hour() != hour0 {
+			for _, ep := range ceps {
+				if !ep.Op.Done() {
+					ep.Conn.FeedEOF()
+					ep.Conn.Wait(ep.Op)
+				}
+			}
+			return true
+		}
 		if rep.Class != "ok" || !bytes.Equal(rep.Data, blob) || rep.Used != len(full) {
 			violate("client-handshake-bytes-differ", "correspondence", fmt.Sprintf("client #%d wrote %d bytes from %d random bytes; the model derives %s len %d used %d", i, len(blob), len(full), rep.Class, len(rep.Data), rep.Used), c)
 		}
